@@ -543,6 +543,21 @@ Proof.
   apply (dinv_unconn cfg st st' B D H3); [left; assumption|intros; rewrite H1; reflexivity].
 Qed.
 
+Lemma begin_unlock_dinv : forall cfg st B id amt st' n, linv cfg st -> dinv cfg st B ->
+  begin_unlock st id amt = Ok (st', n) -> (forall x, amt = Some x -> 0 < x) -> dinv cfg st' B.
+Proof.
+  intros cfg st B id amt st' n I D E Hpos.
+  apply (begin_unlock_linv cfg) in E; [|assumption|assumption].
+  destruct E as [l [Hl [Hc [_ [_ [_ [_ [C [A [M [Dg [V [_ [_ [_ [_ Cases]]]]]]]]]]]]]]]].
+  apply (dinv_unconn cfg st st' B D); [unfold sproj; congruence| |].
+  - destruct Cases as [[_ [T _]]|[x [_ [_ [_ [T _]]]]]]; [left; assumption|].
+    right. repeat split; [assumption|apply (L_last _ _ I)|]. apply (fresh_id cfg st _ I). lia.
+  - intros id0 Hn. assert (id0 <> id) by (intros ->; contradiction).
+    assert (id0 <> s_last st + 1).
+    { destruct (s_conn st id0) as [k|] eqn:Ec; [|contradiction]. pose proof (conn_rng _ _ _ _ I Ec). lia. }
+    destruct Cases as [[_ [_ K]]|[x [_ [_ [_ [_ [_ K]]]]]]]; rewrite K; rewrite ?upd1_other by assumption; reflexivity.
+Qed.
+
 (* ---- the budget along a history ---- *)
 Definition budget_next (st : state) (B : Z -> Z -> Z) (o : op) (st' : state) : Z -> Z -> Z :=
   match o with
@@ -618,14 +633,24 @@ Proof.
   - (* OBeginUnlock *)
     destruct (s_locks st id) as [l|] eqn:Hl; [|discriminate].
     destruct (Z.eqb_spec (l_owner l) sender); [|discriminate]. cbn [negb] in H.
-    destruct (s_synths st id) as [|y r] eqn:Hs; [|discriminate]. cbn [negb] in H.
-    destruct (begin_unlock_core st id l None) as [[s n]|] eqn:E; [|discriminate]. injection H as <- _. cbn [fst].
-    pose proof (L_marker _ _ I id) as M. unfold marker in M. rewrite Hs in M.
-    apply (begin_unlock_core_linv cfg) in E; try assumption; [|discriminate].
-    destruct E as [_ [_ [_ [C [A [M' [Dg [V [_ [_ [_ [_ Cases]]]]]]]]]]]].
-    destruct Cases as [[_ [T K]]|[x [Ex _]]]; [|discriminate].
+    destruct (begin_unlock st id None) as [[s n]|] eqn:E; [|discriminate]. injection H as <- _. cbn [fst].
+    apply (begin_unlock_dinv cfg st B id None s n I D E). discriminate.
+  - (* OBeginUnlockPartial *)
+    destruct (s_locks st id) as [l|] eqn:Hl; [|discriminate].
+    destruct (Z.eqb_spec (l_owner l) sender); [|discriminate]. cbn [negb] in H.
+    destruct (Z.leb_spec amt 0); [discriminate|].
+    apply (begin_unlock_dinv cfg st B id (Some amt) st' nid I D H). intros x Ex. injection Ex as <-. assumption.
+  - (* OBeginUnlockAll *)
+    destruct (begin_unlock_all st owner (ids_upto (s_last st))) as [s|] eqn:E; [|discriminate]. injection H as <- _.
+    apply (begin_unlock_all_linv cfg) in E; [|assumption].
+    destruct E as [_ [C [A [M [Dg [V [_ [_ [T [_ [_ K]]]]]]]]]]].
+    apply (dinv_unconn cfg st s B D); [unfold sproj; congruence|left; assumption|assumption].
+  - (* OForceUnlock *)
+    destruct (force_unlock cfg st sender id) as [s|] eqn:E; [|discriminate]. injection H as <- _.
+    apply (force_unlock_linv cfg) in E; [|assumption].
+    destruct E as [_ [Hc [_ [C [A [M [Dg [V [_ [_ [T K]]]]]]]]]]].
     apply (dinv_unconn cfg st s B D); [unfold sproj; congruence|left; assumption|].
-    intros id0 Hn. rewrite K. apply upd1_other. intros ->. contradiction.
+    intros id0 Hn. apply K. intros ->. contradiction.
   - (* OWithdraw *)
     unfold unlock_matured_lock in H. destruct (s_locks st id) as [l|] eqn:Hl; [|discriminate].
     destruct (Z.eqb_spec (l_end l) 0) as [|Ne]; [discriminate|]. destruct (s_now st <? l_end l); [discriminate|].
